@@ -89,3 +89,30 @@ Fixpoint trace (s : state) (acts : list action) : list obs :=
   | a :: r => let s' := step s a in
               match a with Settle => observe s' :: trace s' r | _ => trace s' r end
   end.
+
+(** Compact encodings for the correspondence (a list literal with notations costs Coq milliseconds per action to parse,
+    one numeral nothing; printing every observation is slow as well).  [decode]: a schedule of [k] actions is one number
+    in base 2^20, least significant digit first, digit = kind + 4 * arg with kind 1 = Settle, 2 = Acquire arg,
+    3 = Release arg.  [fingerprint]: a hash of the whole trace; the Python side computes the same function from the
+    implementation's observations and a differing schedule is re-evaluated in full.  A wrong decoding or hash would show
+    up as a disagreement with the implementation, never hide one. *)
+Definition decode_action (d : Z) : action :=
+  let k := d mod 4 in let a := d / 4 in
+  if k =? 2 then Acquire a else if k =? 3 then Release (Z.to_nat a) else Settle.
+Fixpoint decode (k : nat) (z : Z) : list action :=
+  match k with
+  | O => []
+  | S m => decode_action (Z.land z 1048575) :: decode m (Z.shiftr z 20)
+  end.
+Fixpoint insert_nat (x : nat) (l : list nat) : list nat :=
+  match l with [] => [x] | y :: r => if Nat.leb y x then y :: insert_nat x r else x :: l end.
+Definition enc_obs (seen : nat) (o : obs) : list Z :=
+  let '(v, q, h, e) := o in
+  v :: Z.of_nat (length q) :: flat_map (fun x : nat * Z => [Z.of_nat (fst x); snd x]) q
+  ++ Z.of_nat (length h) :: map Z.of_nat (fold_right insert_nat [] h)
+  ++ Z.of_nat (length e) :: map Z.of_nat (skipn seen e).      (* elog is append-only: only the new entries *)
+Definition hmix (h x : Z) : Z := Z.land (h * 131 + x + 7) 2305843009213693951.
+Definition fingerprint (cap : Z) (acts : list action) : Z :=
+  fst (fold_left (fun (acc : Z * nat) (o : obs) =>
+                    let '(_, _, _, e) := o in (fold_left hmix (enc_obs (snd acc) o) (fst acc), length e))
+                 (trace (init cap) acts) (7, 0%nat)).
